@@ -73,6 +73,10 @@ def loadPdb (p : P) (k : List L → Prog P L R) : Prog P L R := .dbMem (readPdb 
 
 inductive Rd (P : Type) | load (p : P) | read (p : P)
 
+def Rd.path : Rd P → P
+  | .load p => p
+  | .read p => p
+
 /-- a fixed sequence of structure reads; the continuation gets everything that was read, in order -/
 def readSeq : List (Rd P) → (List (List L) → Prog P L R) → Prog P L R
   | [], k => k []
@@ -95,16 +99,16 @@ def readZone (W : Work L Z R) (f : P) (k : Z → Prog P L R) : Prog P L R :=
     else .fail .fileNotFound
 
 /-- the zone-file cache of the fast routines: `elif not os.path.isfile(zone): compute, save … else: read_zone` -/
-def withZone (W : Work L Z R) (r : Routine) (ref f tmp : P) (k : Z → Prog P L R) : Prog P L R :=
+def withZone (W : Work L Z R) (zr : Routine) (ref f tmp : P) (k : Z → Prog P L R) : Prog P L R :=
   .isFile f fun b =>
     if b then readZone W f k
-    else loadPdb ref fun rc => writeZone tmp f (W.render (W.compute r rc)) (k (W.compute r rc))
+    else loadPdb ref fun rc => writeZone tmp f (W.render (W.compute zr rc)) (k (W.compute zr rc))
 
-/-- `lzone=None | <name>` -/
-def zoneArg (W : Work L Z R) (r : Routine) (a : Args P) (k : Z → Prog P L R) : Prog P L R :=
+/-- `lzone=None | <name>` (`zr` = which zone routine computes: `compute_lzone` or `compute_izone`) -/
+def zoneArg (W : Work L Z R) (zr : Routine) (a : Args P) (k : Z → Prog P L R) : Prog P L R :=
   match a.zone with
-  | none => loadPdb a.ref fun rc => k (W.compute r rc)
-  | some f => withZone W r a.ref f a.tmp k
+  | none => loadPdb a.ref fun rc => k (W.compute zr rc)
+  | some f => withZone W zr a.ref f a.tmp k
 
 /-- the two optional exports of the SQL score routines (`exportpath is not None`) -/
 def export2 (W : Work L Z R) (r : Routine) (a : Args P) (obs : List (List L)) (res : Except Err R) : Prog P L R :=
@@ -128,18 +132,18 @@ def checked (W : Work L Z R) (r : Routine) (z : Option Z) (first second : List (
 /-- the effect program of each routine -/
 def prog (W : Work L Z R) (r : Routine) (a : Args P) : Prog P L R :=
   match r with
-  | .lrmsdFast true => zoneArg W r a fun z =>
+  | .lrmsdFast true => zoneArg W .lzone a fun z =>
       -- check_residues (pdb2sql(ref), pdb2sql(decoy)); get_data_zone_backbone(decoy), (ref); _get_xyz ×4
       checked W r (some z) [.load a.ref, .load a.decoy]
         [.read a.decoy, .read a.ref, .read a.decoy, .read a.ref, .read a.decoy, .read a.ref] fun _ res => finish res
-  | .lrmsdFast false => zoneArg W r a fun z =>
+  | .lrmsdFast false => zoneArg W .lzone a fun z =>
       -- get_xyz_zone_backbone(decoy), (ref)
       checked W r (some z) [] [.read a.decoy, .read a.ref] fun _ res => finish res
-  | .irmsdFast true => zoneArg W r a fun z =>
+  | .irmsdFast true => zoneArg W .izone a fun z =>
       -- check_residues; get_data_zone_backbone(decoy), (ref); _get_xyz(decoy), (ref)
       checked W r (some z) [.load a.ref, .load a.decoy]
         [.read a.decoy, .read a.ref, .read a.decoy, .read a.ref] fun _ res => finish res
-  | .irmsdFast false => zoneArg W r a fun z =>
+  | .irmsdFast false => zoneArg W .izone a fun z =>
       checked W r (some z) [] [.read a.decoy, .read a.ref] fun _ res => finish res
   | .lrmsdSql =>
       -- pdb2sql(decoy), pdb2sql(ref); chains must agree; check_residues (pdb2sql(ref), pdb2sql(decoy)); export
@@ -182,10 +186,10 @@ structure Args.Roles (role : P → Role) (a : Args P) : Prop where
 def writeZoneInPlace (f : P) (lines : List L) (k : Prog P L R) : Prog P L R :=
   .openTrunc f (lines.foldr (fun l k => .append f [l] k) k)
 
-def withZoneInPlace (W : Work L Z R) (r : Routine) (ref f : P) (k : Z → Prog P L R) : Prog P L R :=
+def withZoneInPlace (W : Work L Z R) (zr : Routine) (ref f : P) (k : Z → Prog P L R) : Prog P L R :=
   .isFile f fun b =>
     if b then readZone W f k
-    else loadPdb ref fun rc => writeZoneInPlace f (W.render (W.compute r rc)) (k (W.compute r rc))
+    else loadPdb ref fun rc => writeZoneInPlace f (W.render (W.compute zr rc)) (k (W.compute zr rc))
 
 /-- old `_create_sql` with a file name: `if isfile(f): sp.call('rm %s' % f, shell=True)`; `sqlite3.connect(f)` -/
 def openDbOld [DecidableEq P] (f : P) (k : Prog P L R) : Prog P L R :=
